@@ -124,9 +124,12 @@ def check(spec, ctx):
     index = {id(e): i for i, e in enumerate(events)}
     calls = []
 
+    big = n > 600  # millions of comparisons: only the improper ones are kept
+
     def cmp(a, b):
         ia, ib = index.get(id(a)), index.get(id(b))
-        calls.append((ia, ib))
+        if not big or ia is None or ib is None or ia == ib:
+            calls.append((ia, ib))
         if ia is None or ib is None:
             return False
         ans = frozenset((ia, ib)) in eset
@@ -209,7 +212,7 @@ def enum_long_chains(tier):
         out.append({"n": n, "edges": [[i, i + 2] for i in range(n - 2)]})
     # hubs: one event similar to exactly 255 / 256 / 257 / 512 others (a long call overlapping every short one), listed first, last or in
     # the middle; everything similar to everything (257 events); a hub listed after its 1300 partners
-    for leaves in ([255, 256, 257, 512] if tier == "quick" else [127, 128, 255, 256, 257, 511, 512, 513, 1024, 65536 // 16]):
+    for leaves in ([255, 256, 257, 512] if tier == "quick" else [127, 128, 255, 256, 257, 511, 512, 513, 1024]):
         for hub in (0, leaves, leaves // 2):
             out.append({"n": leaves + 1, "edges": [[min(hub, i), max(hub, i)] for i in range(leaves + 1) if i != hub]})
         out.append({"n": leaves + 3, "edges": [[0, i] for i in range(1, leaves + 1)] + [[leaves + 1, leaves + 2]]})
